@@ -18,7 +18,8 @@ def handlers : List (String × (String → Json → Except String Json)) := [
   ("geo", Aeic.Geo.handle),
   ("wind", Aeic.Wind.handle),
   ("c02", Aeic.Builder.handleC02),
-  ("c17", Aeic.Builder.handleC17)
+  ("c17", Aeic.Builder.handleC17),
+  ("c06", Aeic.PerfTable.handle)
 ]
 
 def dispatch (op : String) (j : Json) : Except String Json :=
